@@ -19,7 +19,7 @@ from ..report import Ctx
 from ..selftest import Mutant
 
 PROP = "C17"
-TECHNIQUE = "static analysis: use-after-loop and def-use analysis of Sweep.product + must-read path query + negation-normal-form comparison of the case splits of __len__ and generate + arm-order and shape rules + guard-fact rule for dropped derivers + class-level method alias vs overriding subclasses + variable-arity itemgetter rule"
+TECHNIQUE = "static analysis: use-after-loop and def-use analysis of Sweep.product + must-read path query + negation-normal-form comparison of the case splits of __len__ and generate + arm-order and shape rules + guard-fact rule for dropped derivers + class-level method alias vs overriding subclasses + variable-arity itemgetter rule + late-binding closure rule + str-or-tuple iteration under isinstance guard (annotation typer + CFG guard facts)"
 MOD = "pipefunc.sweep"
 EXPLANATION = (
     "Static analysis of pipefunc/sweep.py: scope-aware use-after-loop detection and def-use of the merged attributes in "
@@ -428,6 +428,7 @@ def check(ctx: Ctx) -> None:
 
 F = "pipefunc/sweep.py"
 MUTANTS = [
+    Mutant("late-bound-exclude-chain", "pipefunc/sweep.py", "    return lambda x: any(func(x) for func in funcs)\n", "    combined = funcs[0]\n    for f in funcs[1:]:\n        combined = lambda x, prev=combined: prev(x) or f(x)  # noqa: E731\n    return combined\n", ("C17.1-all-operands",), why="round-4 seed C17/10"),
     Mutant("product-original-F27", F, "exclude=_combined_exclude(self.exclude, *(other.exclude for other in others)),", "exclude=_combined_exclude(self.exclude, other.exclude),", ("C17.1-all-operands",), why="original F27"),
     Mutant("product-drops-derivers", F, "            derivers=_combine_dicts(self.derivers, *(other.derivers for other in others)),  # type: ignore[arg-type]\n", "            derivers=self.derivers,\n", ("C17.1-all-operands",)),
     Mutant("product-first-operand-only", F, "        for other in others:\n            if not isinstance(other, Sweep):  # pragma: no cover\n                msg = \"All arguments", "        for other in others[:1]:\n            if not isinstance(other, Sweep):  # pragma: no cover\n                msg = \"All arguments", ("C17.1-all-operands",)),
